@@ -14,7 +14,11 @@ source on disk is never touched; node positions are kept, so reports still point
      (the set of identifiers occurring as string literals in vt/*.py and vt/props/*.py): functions the rules
      name keep their identity; functions a refactoring introduced are dissolved into their callers;
   3. keyword -> positional arguments for calls whose callee resolves to a function of the analysed tree
-     (``kw_to_pos``, needs the other modules' signatures and is therefore run by the loader after indexing).
+     (``kw_to_pos``, needs the other modules' signatures and is therefore run by the loader after indexing);
+  4. local closures used as plain helpers (``def reg(a, b): ...`` at the top of a function body, only ever called,
+     after its definition, from the function's own scope) are inlined like private helpers (``Inliner._local_helpers``);
+  5. loops over a short literal tuple / list of *variables* (``for src in (self.resources, overrides): d.update(src)``)
+     are unrolled (``Unroll``); loops over constants (slot-name tables) keep their shape.
 
 Anything the inliner cannot restructure soundly (returns inside nested loops, ``finally`` with a pending
 continuation, ...) is left as the call it was: normalisation never guesses.
@@ -417,6 +421,8 @@ class Inliner(object):
                 continue
             if any(isinstance(n, ast.Call) and isinstance(n.func, ast.Name) and n.func.id == st.name for n in ast.walk(st)):
                 continue
+            if any(not isinstance(d, ast.Constant) for d in st.args.defaults + [d for d in st.args.kw_defaults if d is not None]):
+                continue      # a default is evaluated when the closure is defined, not where it is called
             uses = [n for n in ast.walk(fn) if isinstance(n, ast.Name) and n.id == st.name]
             callees = set(id(n.func) for n in ast.walk(fn) if isinstance(n, ast.Call) and isinstance(n.func, ast.Name))
             binds = [n for n in ast.walk(fn) if isinstance(n, (ast.FunctionDef, ast.ClassDef)) and n is not st and n is not fn and n.name == st.name]
